@@ -286,3 +286,155 @@ def replay(pid, path):
         return 1
     print("INCONCLUSIVE: replay did not reproduce the rejection")
     return 2
+
+
+# ------------------------------------------------------------------ sequential map traces (C11, C10, C12 ...)
+
+def one_chain_pin(keys, same_h=False, bucket=5):
+    """All given keys in one root bucket chain for every table generation (bucket index bits all equal)."""
+    return {"keys": {k: [bucket, 1 if same_h else (i % 120) + 1] for i, k in enumerate(keys)}, "avoid": [bucket]}
+
+
+def map_programs_c11(ctx, rng):
+    progs = []
+    n_rand = 24 if not ctx.thorough else 400
+    hints = [None, -1, 0, 1, 96, 97, 1000] + ([100000] if ctx.thorough else [])
+    for i in range(n_rand):
+        nk = rng.choice([3, 6, 12, 40])
+        progs.append(gen.map_program(rng, "Map", "", "", length=rng.choice([60, 150]), nkeys=nk, hint=hints[i % len(hints)], note="rand#%d" % i))
+    # layout pins: the whole scenario lives in one chain (slot empty / chain full / chain needing a new bucket)
+    for nk in (2, 3, 4, 5, 6, 7, 11, 16):
+        for same_h in (False, True):
+            keys = ["k%d" % (j + 1) for j in range(nk)]
+            for rep in range(2 if not ctx.thorough else 12):
+                progs.append(gen.map_program(rng, "Map", "", "", length=80, keys=keys, pin=one_chain_pin(keys, same_h),
+                                             note="one-chain nk=%d same_h=%s" % (nk, same_h)))
+    # bulk: cross every grow and shrink threshold on the way up and down, with scenario keys interleaved
+    N = 3000 if not ctx.thorough else 40000
+    for rep in range(2 if not ctx.thorough else 6):
+        keys = ["k%d" % (j + 1) for j in range(8)]
+        ops = []
+        vg = gen.ValGen()
+
+        def scen(n):
+            for _ in range(n):
+                op = rng.choice(["Store", "Load", "LoadOrStore", "LoadAndDelete", "Compute", "LoadAndStore", "Delete", "LoadOrCompute"])
+                o = {"op": op, "k": rng.choice(keys)}
+                if op in ("Store", "LoadOrStore", "LoadAndStore", "LoadOrCompute"):
+                    o["v"] = vg.next()
+                if op == "Compute":
+                    o.update(v=vg.next(), fn=rng.choice(gen.COMPUTE_FNS))
+                ops.append(o)
+        step = N // 6
+        lo = 1
+        while lo <= N:
+            hi = min(N, lo + step - 1)
+            ops.append({"op": "BulkStore", "lo": lo, "hi": hi})
+            scen(6)
+            ops.append({"op": "Size"})
+            lo = hi + 1
+        ops.append({"op": "BulkLoad", "lo": 1, "hi": N})
+        ops.append({"op": "Range", "fn": "all"})
+        lo = 1
+        while lo <= N:
+            hi = min(N, lo + step - 1)
+            ops.append({"op": "BulkDelete", "lo": lo, "hi": hi})
+            scen(6)
+            ops.append({"op": "BulkLoad", "lo": 1, "hi": N})
+            lo = hi + 1
+        ops += [{"op": "Size"}, {"op": "BulkStore", "lo": 1, "hi": N // 2}, {"op": "Range", "fn": "all"}, {"op": "BulkDelete", "lo": N // 4, "hi": N}, {"op": "Size"}]
+        scen(10)
+        ops += [{"op": "BulkStore", "lo": 1, "hi": 300}, {"op": "Clear"}, {"op": "Size"}, {"op": "BulkLoad", "lo": 1, "hi": 300}]
+        scen(10)
+        for k in keys:
+            ops.append({"op": "Load", "k": k})
+        ops += [{"op": "Range", "fn": "all"}, {"op": "Size"}]
+        progs.append({"map": {"kind": "Map", "keytype": "", "valtype": "", "hashint": rep % 2 == 1, "hint": 5000}, "ops": ops, "note": "bulk N=%d rep=%d" % (N, rep)})
+    return progs
+
+
+def strip_header(lines):
+    return lines[1:]
+
+
+def compare_runs(ctx, a, b, label, what):
+    """Two executions of the same programs must be identical event by event (header excluded)."""
+    n = 0
+
+    def norm(line):
+        # iteration order is layout dependent and not part of any property: an early-stopping Range is compared
+        # by the number of visits, eviction batches as sets
+        if '"Range"' in line and '"stop:' in line:
+            e = json.loads(line)
+            e["vis"] = len(e["vis"])
+            return json.dumps(e, sort_keys=True)
+        if '"DeleteExpired"' in line:
+            e = json.loads(line)
+            e["evs"] = sorted(e["evs"], key=lambda x: (x["k"], x["v"]))
+            return json.dumps(e, sort_keys=True)
+        return line
+
+    for i, (ra, rb) in enumerate(zip(a, b)):
+        if ra[1:] != rb[1:] and [norm(x) for x in ra[1:]] != [norm(x) for x in rb[1:]]:
+            n += 1
+            j = next((x for x in range(1, min(len(ra), len(rb))) if norm(ra[x]) != norm(rb[x])), 0)
+            ctx.violation({"kind": "twin", "label": label, "run": i, "event_index": j, "event": json.loads(ra[j]), "other": json.loads(rb[j])},
+                          "%s: run %d differs at event %d: %s vs %s" % (what, i, j, json.dumps(slim(json.loads(ra[j]))), json.dumps(slim(json.loads(rb[j])))))
+            if n >= 5:
+                break
+    ctx.cov["pairs_compared"] = ctx.cov.get("pairs_compared", 0) + len(a)
+    return n
+
+
+def check_c11(ctx):
+    rng = random.Random(lib.seed() * 104729 + 11)
+    base = map_programs_c11(ctx, rng)
+    results = {}
+    for (kind, kt, vt) in CONTAINERS_MAP:
+        progs = [instantiate(p, kind, kt, vt) for p in base]
+        results[(kind, kt, vt)] = run_seq(ctx, progs, "Trace_MapSeq", "C11", "%s[%s,%s] hints/pins/bulk" % (kind, kt, vt))
+    # fresh processes: the per-process hash key differs, results must not
+    progs = [instantiate(p, "Map", "", "") for p in base]
+    ref = results[("Map", "", "")]
+    for rep in range(2 if not ctx.thorough else 8):
+        runs = run_seq(ctx, progs, "Trace_MapSeq", "C11", "Map fresh process #%d" % (rep + 1))
+        compare_runs(ctx, ref, runs, "fresh-process", "same programs in a fresh process (different hash key)")
+    # the same call sequence under another presize hint / without the layout pin must give identical observations
+    alt = []
+    for p in base:
+        q = instantiate(p, "Map", "", "")
+        q.pop("pin", None)
+        q["map"]["hashint"] = True
+        q["map"]["hint"] = 777
+        alt.append(q)
+    runs = run_seq(ctx, alt, "Trace_MapSeq", "C11", "Map other hint, unpinned")
+    compare_runs(ctx, ref, runs, "other-hint", "same programs with presize hint 777 and default layout")
+    # caches: capacity options and one-chain layouts
+    crng = random.Random(lib.seed() * 31 + 5)
+    cprogs = []
+    for i in range(16 if not ctx.thorough else 200):
+        nk = crng.choice([3, 4, 6, 7])
+        keys = ["k%d" % (j + 1) for j in range(nk)]
+        p = gen.cache_program(crng, "Cache", "", "", unit=1, length=100, nkeys=nk, note="cache one-chain nk=%d" % nk)
+        p["pin"] = one_chain_pin(keys, same_h=(i % 2 == 0))
+        cprogs.append(p)
+    cref = None
+    for (kind, kt, vt) in CONTAINERS_CACHE[:2] if not ctx.thorough else CONTAINERS_CACHE:
+        runs = run_seq(ctx, [instantiate(p, kind, kt, vt) for p in cprogs], "Trace_CacheSeq", "C11", "%s[%s,%s] one-chain layouts" % (kind, kt, vt))
+        cref = cref or runs
+    unp = []
+    for p in cprogs:
+        q = copy.deepcopy(p)
+        q.pop("pin", None)
+        q["cache"]["hascap"] = True
+        q["cache"]["mincap"] = 4096
+        unp.append(q)
+    runs = run_seq(ctx, unp, "Trace_CacheSeq", "C11", "Cache MinCapacity 4096, default layout")
+    # physical content is part of the events and legitimately equal; compare everything
+    compare_runs(ctx, cref, runs, "cache-capacity", "same cache programs under MinCapacity 4096 and default layout")
+    ctx.assumptions += ["layout pins replace hashString / the MapOf hasher in the scratch copy only (instrumenter renames the originals, wrappers call them when no pin is set)",
+                        "ballast keys are handled through aggregated Bulk* observations (hit counts, value-match counts); judgement stays in MapSem",
+                        "implementation-shaped exhaustive model for the table (CLHT single-thread) is reported by the C03/C04 checks"]
+
+
+CHECKS["C11"] = check_c11
